@@ -134,6 +134,8 @@ def pairs(repo, groups):
             mode = "MODE_PROMOTED_SMALL_RIGHT"
         if heavy and mode == "MODE_ANY":
             mode = "MODE_NOFLOAT"
+        if heavy and mode == "MODE_INTS":
+            mode = "MODE_INTS_SMALL_RIGHT"
         if base in ("Eq", "Ne"):
             mode = {"MODE_ANY": "MODE_NONAN", "MODE_PROMOTED": "MODE_PROMOTED_NONAN", "MODE_FLOATS": None}.get(mode, mode)
             if mode is None:
